@@ -106,6 +106,15 @@ func Project(m *nas.Message) Proj {
 			ProjectBody(f.Elem(), &p)
 		}
 	}
+	// bodies hanging off the OTHER family pointer count as well: a decode populates exactly one body in the whole message
+	if m.GmmMessage != nil && m.GsmMessage != nil {
+		other := reflect.ValueOf(m.GsmMessage).Elem()
+		for i := 0; i < other.NumField(); i++ {
+			if f := other.Field(i); f.Kind() == reflect.Ptr && !f.IsNil() {
+				p.Bodies = append(p.Bodies, f.Elem().Type().Name())
+			}
+		}
+	}
 	return p
 }
 
